@@ -64,7 +64,7 @@ m = {"version": 1,
                "baseline_off_cmd": "cd /repo && cargo test --workspace --no-fail-fast --offline",
                "source_commits": ["5b370dd", "ce42520", "37199fc"], "add_only": True},
      "engines": engines, "checks": checks,
-     "notes": "All 20 properties are decided with TLA+ specifications under /verif/spec (TLC). Fix commits in /repo: b326285 a3342c0 c3279bc 0f2024b 94a5652 87f4e6c 1320894 7e6abb3 5f58985 ec0fe7e cb8c62b a298ee1 2053d2f 60a54bb c4cb77c (see known_findings.json; DESIGN.md 8.3 describes defects F1-F15). tools/mutation_run.py applies /verif/mutants/*.patch and /verif/seeded/*/patch.diff to /repo, runs checks and restores the tree; DESIGN.md 8.5/8.6 record which check catches which of the hand-written mutants and the 159 changes seeded by independent sub-agents, and which behaviour-preserving changes (mutants/L_*.patch, legit/a1..a8) stay silent.",
+     "notes": "All 20 properties are decided with TLA+ specifications under /verif/spec (TLC). Fix commits in /repo: b326285 a3342c0 c3279bc 0f2024b 94a5652 87f4e6c 1320894 7e6abb3 5f58985 ec0fe7e cb8c62b a298ee1 2053d2f 60a54bb c4cb77c (see known_findings.json; DESIGN.md 8.3 describes defects F1-F15). tools/mutation_run.py applies /verif/mutants/*.patch and /verif/seeded/*/patch.diff to /repo, runs checks and restores the tree; DESIGN.md 8.5/8.6 record which check catches which of the hand-written mutants and the 165 changes seeded by independent sub-agents, and which behaviour-preserving changes (mutants/L_*.patch, legit/a1..a8) stay silent.",
      "not_applicable": []}
 json.dump(m, open(os.path.join(VERIF, "MANIFEST.json"), "w"), indent=1)
 print("wrote MANIFEST with", len(checks), "checks")
